@@ -384,7 +384,7 @@ def main(tier, seed):
         if not getattr(rep, '_staged_done', False):
             rep._staged_done = True
             import r12
-            for pname, De, Ae in r12.staged_spectra(rng, tier):
+            for pname, De, Ae in r12.staged_spectra(lib.rng_for(seed, PID + ':staged'), tier):   # own stream: the sections below keep their draws
                 meta = dict(op='eigh', spectrum='staged:' + pname, n=Ae.shape[2], D=De, P=Ae.shape[1], A=Ae.tolist())
                 case('eigh:staged', meta, True)
                 rep.count('eigh: staged splitting', pname)
